@@ -102,12 +102,8 @@ Example string_value_indent_refuted :
   run impl_flags (EFun1 FString p_c_l1) = OStr [10; 32; 32; 53; 46; 48; 10; 32; 32; 49; 10; 10; 32; 32; 32; 32; 113; 10].
 Proof. split; vm_compute; reflexivity. Qed.
 
-(* string(1 div 4), number('1e3'), string-length('é'), 9007199254740993 = 9007199254740992 through the evaluator *)
+(* string-length('é'), 9007199254740993 = 9007199254740992 through the evaluator *)
 Example kernels_through_eval_refuted :
-  run spec_flags (EFun1 FString (EArith ADiv (num [49]) (num [52]))) = OStr [48; 46; 50; 53] /\
-  run impl_flags (EFun1 FString (EArith ADiv (num [49]) (num [52]))) = OStr [48; 46; 50] /\
-  run spec_flags (EFun1 FNumber (ELit [49; 101; 51])) = ONum XNaN /\
-  run impl_flags (EFun1 FNumber (ELit [49; 101; 51])) = ONum (x_of_Z 1000) /\
   run spec_flags (EFun1 FStrLen (ELit [195; 169])) = ONum (x_of_Z 1) /\
   run impl_flags (EFun1 FStrLen (ELit [195; 169])) = ONum (x_of_Z 2) /\
   run spec_flags (ECmp CEq (num [57;48;48;55;49;57;57;50;53;52;55;52;48;57;57;51]) (num [57;48;48;55;49;57;57;50;53;52;55;52;48;57;57;50])) = OBool true /\
@@ -116,6 +112,14 @@ Proof. repeat split; vm_compute; reflexivity. Qed.
 
 (* ---------------- regression: former witnesses of departures repaired in /repo ---------------- *)
 Definition agree (e : expr) (o : obs) : Prop := run spec_flags e = o /\ run impl_flags e = o.
+
+(* 54bf5db, b906576  string(1 div 4) is 0.25 (was 0.2: one fraction digit), number('1e3') is NaN (was 1000: strtold),
+   number(' 5 ') is 5 (was NaN) *)
+Example kernels_through_eval_regression :
+  agree (EFun1 FString (EArith ADiv (num [49]) (num [52]))) (OStr [48; 46; 50; 53]) /\
+  agree (EFun1 FNumber (ELit [49; 101; 51])) (ONum XNaN) /\
+  agree (EFun1 FNumber (ELit [32; 53; 32])) (ONum (x_of_Z 5)).
+Proof. repeat split; vm_compute; reflexivity. Qed.
 
 (* 434e77e  /a:c/a:l1[a:k=5] : node-set = number compares numbers: the key '5.0' is 5 (the lookup compared strings) *)
 Example fastpath_nonstring_rhs_regression :
